@@ -39,7 +39,7 @@ pub fn model_for(prop: &str) -> String {
     )
 }
 
-pub const OPS_C02: [&str; 17] = [
+pub const OPS_C02: [&str; 20] = [
     "row-of-another-room",
     "author-without-right-on-entity",
     "row-dated-before-author-was-enabled",
@@ -57,6 +57,9 @@ pub const OPS_C02: [&str; 17] = [
     "reference-on-foreign-row-with-own-rows-right-only",
     "reference-with-a-label-that-is-not-a-field",
     "row-moved-from-a-room-without-right-into-a-room-with-every-right",
+    "reference-deletion-on-foreign-row-with-own-rows-right-only",
+    "reference-deletion-naming-a-room-where-the-author-has-every-right",
+    "row-deletion-naming-a-room-where-the-author-has-every-right",
 ];
 pub const OPS_C06: [&str; 3] = ["reference-splice-entity-label", "signing-oracle-node", "signing-oracle-reference"];
 pub const OPS_C07: [&str; 9] = [
@@ -391,6 +394,8 @@ struct Inject {
     nodes: Vec<dv::Node>,
     edges: Vec<dv::Edge>,
     node_dels: Vec<dv::NodeDeletionEntry>,
+    edge_dels: Vec<dv::EdgeDeletionEntry>,
+    done_edels: bool,
     /// (id of an honest row, replacement) : the honest row is replaced in the Nodes answer
     tamper: Option<(Uid, dv::Node)>,
     /// rewrite every reference with src_entity "11" / label "32" into ("1","132")
@@ -505,6 +510,14 @@ fn mitm(inj: Rc<RefCell<Inject>>) -> Box<dyn FnMut(&'static str, Vec<Answer>) ->
                     append(&mut answers, edges);
                     inj.done_edges = true;
                     inj.fired.push("references-injected");
+                }
+            }
+            "EdgeDeletionLog" => {
+                if !inj.done_edels && !inj.edge_dels.is_empty() {
+                    let dels: Vec<dv::EdgeDeletionEntry> = inj.edge_dels.drain(..).collect();
+                    append(&mut answers, dels);
+                    inj.done_edels = true;
+                    inj.fired.push("reference-deletions-injected");
                 }
             }
             "NodeDeletionLog" => {
@@ -741,6 +754,7 @@ fn attack_c02(c: &mut Ctx, op: &'static str) -> Result<(), String> {
     let mut crafted: Vec<(Uid, bool)> = vec![];
     let mut keep_version: Option<(Uid, Vec<u8>)> = None;
     let mut forged_edges: Vec<(Uid, Uid)> = vec![];
+    let mut kept_edges: Vec<(Uid, String, Uid)> = vec![];
     let m_active = c.m_disabled_from.is_none();
     let day = c.now;
     match op {
@@ -858,6 +872,41 @@ fn attack_c02(c: &mut Ctx, op: &'static str) -> Result<(), String> {
             inj.nodes.push(n);
             c.session_room = Some(c.r4.0);
         }
+        "reference-deletion-on-foreign-row-with-own-rows-right-only" | "reference-deletion-naming-a-room-where-the-author-has-every-right" => {
+            // a reference H wrote, on a row H wrote, that V stores: in r1 (M: own-rows right only) / in r3 (M: no right,
+            // the record names r4 where M has every right and is served while V pulls r4)
+            let other_room = op.ends_with("every-right");
+            let room = if other_room { c.r3.0 } else { r1 };
+            let dvv = oracle::dump_room(&c.w.nodes[V].oracle_conn()?, &room)?;
+            let hvk = c.w.nodes[H].vk.clone();
+            let Some(e) = dvv.edges.iter().find(|e| e.author == hvk && e.src_entity == "0") else { return Ok(()) };
+            let (mut src, mut dest) = ([0u8; 16], [0u8; 16]);
+            src.copy_from_slice(&e.src);
+            dest.copy_from_slice(&e.dest);
+            let edge = dv::Edge { src, src_entity: e.src_entity.clone(), label: e.label.clone(), dest, cdate: e.cdate, verifying_key: e.author.clone(), signature: e.signature.clone() };
+            let named = if other_room { c.r4.0 } else { r1 };
+            let del = dv::EdgeDeletionEntry::build(named, &edge, day, &mkey);
+            kept_edges.push((src, e.label.clone(), dest));
+            inj.edge_dels.push(del);
+            if other_room {
+                let p = serde_json::json!({"r": c.r4.1, "n": format!("r4 news {}", c.counter)}).to_string();
+                c.w.nodes[H].mutate("mutate { Person{ room_id:$r name:$n } }", Some(&p))?;
+                let _ = c.w.nodes[H].drain_events();
+                c.session_room = Some(c.r4.0);
+            }
+        }
+        "row-deletion-naming-a-room-where-the-author-has-every-right" => {
+            let d3 = oracle::dump_room(&c.w.nodes[V].oracle_conn()?, &c.r3.0)?;
+            let Some(row) = d3.nodes.iter().find(|n| n.entity == "0") else { return Ok(()) };
+            let node = to_node(row);
+            let del = dv::NodeDeletionEntry::build(c.r4.0, &node, day, &mkey);
+            keep_version = Some((node.id, row.signature.clone()));
+            inj.node_dels.push(del);
+            let p = serde_json::json!({"r": c.r4.1, "n": format!("r4 news {}", c.counter)}).to_string();
+            c.w.nodes[H].mutate("mutate { Person{ room_id:$r name:$n } }", Some(&p))?;
+            let _ = c.w.nodes[H].drain_events();
+            c.session_room = Some(c.r4.0);
+        }
         "reference-with-a-label-that-is-not-a-field" => {
             if !m_active {
                 return Ok(());
@@ -902,6 +951,10 @@ fn attack_c02(c: &mut Ctx, op: &'static str) -> Result<(), String> {
         }
         _ => {}
     }
+    let dels_before: i64 = match &keep_version {
+        Some((id, _)) => c.w.nodes[V].oracle_conn()?.query_row("SELECT count(*) FROM _node_deletion_log WHERE id = ?1", [id.as_slice()], |r| r.get(0)).map_err(|e| e.to_string())?,
+        None => 0,
+    };
     let mut before: Vec<Vec<String>> = vec![];
     for (id, legit) in &crafted {
         before.push(present_anywhere(c, V, id)?);
@@ -935,6 +988,17 @@ fn attack_c02(c: &mut Ctx, op: &'static str) -> Result<(), String> {
             viol02(c, &format!("illegitimate-row-stored/{op}"), format!("V stored the reference the man in the middle signed ({op})"));
         }
     }
+    for (src, label, dest) in kept_edges {
+        let conn = c.w.nodes[V].oracle_conn()?;
+        let n: i64 = conn.query_row("SELECT count(*) FROM _edge WHERE src = ?1 AND label = ?2 AND dest = ?3", rusqlite::params![src.as_slice(), label, dest.as_slice()], |r| r.get(0)).map_err(|e| e.to_string())?;
+        if n == 0 {
+            viol02(c, &format!("illegitimate-deletion-applied/{op}"), format!("V removed a reference H wrote on the word of a deletion record the adversary was not entitled to sign ({op})"));
+        }
+        let n: i64 = conn.query_row("SELECT count(*) FROM _edge_deletion_log WHERE src = ?1 AND label = ?2 AND dest = ?3", rusqlite::params![src.as_slice(), label, dest.as_slice()], |r| r.get(0)).map_err(|e| e.to_string())?;
+        if n > 0 {
+            viol02(c, &format!("rejected-row-left-trace/{op}"), "a reference deletion record signed without the needed right is stored on V".to_string());
+        }
+    }
     if let Some((id, sig)) = keep_version {
         let conn = c.w.nodes[V].oracle_conn()?;
         let cur: Option<Vec<u8>> = conn.query_row("SELECT _signature FROM _node WHERE id = ?1", [id.as_slice()], |r| r.get(0)).ok();
@@ -942,7 +1006,7 @@ fn attack_c02(c: &mut Ctx, op: &'static str) -> Result<(), String> {
             viol02(c, &format!("illegitimate-row-stored/{op}"), format!("V's copy of H's row was {} by the man in the middle ({op})", if cur.is_none() { "removed" } else { "replaced" }));
         }
         let n: i64 = conn.query_row("SELECT count(*) FROM _node_deletion_log WHERE id = ?1", [id.as_slice()], |r| r.get(0)).map_err(|e| e.to_string())?;
-        if n > 0 {
+        if n > dels_before {
             viol02(c, &format!("rejected-row-left-trace/{op}"), "a deletion record signed without the needed right is stored on V".to_string());
         }
     }
